@@ -378,6 +378,9 @@ class Incarnation:
         for p in self.pools + getattr(self.factory, "made", []):
             self.world.pool_orders |= p.orders
         self.world.rng_runs.append(self.rng)
+        self.world.bump("simulated_executions")
+        self.world.bump("rng_seam_events", self.rng.n)
+        self.world.bump("fs_seam_events", len(self.world.fs.log))
         return False
 
     # ------------------------------------------------------------------ building samplers
